@@ -22,7 +22,7 @@ ASSUMPTIONS = [
     "corpus file skipped (and counted) when both quote characters occur inside its string values",
 ]
 TIERS = {
-    "quick": {"examples": 5000, "budget_s": 100},
+    "quick": {"examples": 16000, "budget_s": 100},
     "thorough": {"examples": 150000, "budget_s": 1500},
 }
 PARTS = ["corpus_part", "search"]
@@ -172,7 +172,7 @@ def search(acc: Acc, tier, shard, nshards):
         for k, v in st_.items():
             if k.startswith("excluded:"):
                 acc.excl(k[9:], v)
-        return roundtrip(text, quote, {"doc": doc, "text": text, "quote": quote}, public=(counter["i"] % 50 == 0))
+        return roundtrip(text, quote, {"doc": doc, "text": text, "quote": quote}, public=ch.chance(1, 50))
 
     hyp_search(acc, ID, "documents", shard, n, body, tier)
 
